@@ -110,6 +110,14 @@ def strategy(tier):
 
 def grid(tier):
     ints = [((i * 37) % 19) - 9 for i in range(96)]
+    # every saveable class saved and loaded under every combination of "no context" and "units context" (basis
+    # contexts are left to the random search: objects used inside them are the open finding C18-save-in-basis-context)
+    for cls in CLASSES:
+        for cs in ("none", "units"):
+            for cl in ("none", "units"):
+                for unit in (("1/cm",) if tier == "quick" else ("1/cm", "eV")):
+                    yield {"kind": "object", "cls": cls, "ints": ints[:40], "ctx_save": cs, "ctx_load": cl, "unit": unit,
+                           "target": "path", "touch_save": True, "touch_load": True}
     for owner in ("DFunction", "Operator"):
         for fmt in FORMATS:
             for cplx in (False, True):
